@@ -84,16 +84,23 @@ def cell_problem(cell, v):
     return "cell-?", f"unexpected value {v!r}"
 
 
-def write_files(packets, assignment, nfiles, workdir):
+NAME_POOL = ["b.bin", "a.bin", "10.pkts", "9.pkts", "Z.bin", "z.bin", "sub/a.bin", "_x", "packets_2.bin", "packets_10.bin",
+             "B/1.bin", "A/2.bin"]
+
+
+def write_files(packets, assignment, nfiles, workdir, names=None, given=None):
+    """file i holds the packets assigned to it; the list handed to create_dataset is files[g] for g in `given`
+    (any order, repeats allowed) – the order given need not be the order of the names"""
     files = []
     for i in range(nfiles):
-        path = os.path.join(workdir, f"packets_{i}.bin")
+        path = os.path.join(workdir, names[i] if names else f"packets_{i}.bin")
+        os.makedirs(os.path.dirname(path), exist_ok=True)
         with open(path, "wb") as f:
             for p, a in zip(packets, assignment):
                 if a % nfiles == i:
                     f.write(p)
         files.append(path)
-    return files
+    return [files[g] for g in given] if given else files
 
 
 def check_case(ctx, case):
@@ -103,7 +110,11 @@ def check_case(ctx, case):
     ctx.count()
     workdir = tempfile.mkdtemp(prefix="vf_c18_")
     try:
-        files = write_files(packets, case["files"], case["nfiles"], workdir)
+        files = write_files(packets, case["files"], case["nfiles"], workdir, case.get("names"), case.get("given"))
+        if files != sorted(files):
+            ctx.cls("files given in an order other than by name")
+        if len(set(files)) < len(files):
+            ctx.cls("a file given more than once")
         try:
             defn = c01.get_definition(case)
         except Exception as e:
@@ -255,7 +266,10 @@ def gen_case(draw, poly=False):
     packets = [draw(xgen.gen_packet(doc, mutate=False, model=model)).hex() for _ in range(n)]
     nfiles = draw(st.integers(1, 3))
     files = [draw(st.integers(0, nfiles - 1)) for _ in range(n)]
-    return {"doc": doc, "packets": packets, "nfiles": nfiles, "files": files,
+    names = draw(st.lists(st.sampled_from(NAME_POOL), min_size=nfiles, max_size=nfiles, unique=True))
+    given = draw(st.one_of(st.just(list(range(nfiles))), st.permutations(list(range(nfiles))),
+                           st.lists(st.integers(0, nfiles - 1), min_size=1, max_size=nfiles + 1)))
+    return {"doc": doc, "packets": packets, "nfiles": nfiles, "files": files, "names": names, "given": list(given),
             "files_as": draw(st.sampled_from(["list", "list", "tuple", "generator", "paths", "single"])),
             "route": draw(st.sampled_from(["xml", "xml", "built"])), "opts": draw(c01.gen_opts())}
 
@@ -267,7 +281,8 @@ def part_generated(ctx, examples, poly=False):
 PARTS = {"generated": part_generated}
 REPLAY = {"generated": check_case}
 KNOWN = {"trailing_nul_stripped": known_trailing_nul, "big_int_rounded_in_float_column": known_big_int_in_float_column}
-FLOORS = {"nontrivial": ("", 0.1), "polymorphic -> ValueError": ("", 0.01)}
+FLOORS = {"nontrivial": ("", 0.1), "polymorphic -> ValueError": ("", 0.01),
+          "files given in an order other than by name": ("", 0.1)}
 
 
 def plan(tier, seed):
